@@ -15,9 +15,12 @@ ALLOWED_AXIOMS = ()
 DEPENDS = ['C04']      # coq/Model/C08.v imports Verif.Model.C04: the engine regenerates Gen/Facts_C04.v first
 RULE = ('random conflict-free programs over routes, views (predicates, derivers, renderers, permissions, csrf), renderers, '
         'security policy, default permission, CSRF options, root/session/request factories, request methods, '
-        'notfound/forbidden/exception views, static views, subscribers, tweens; each executed through real Configurators '
+        'notfound/forbidden/exception views (incl. append_slash, views on IExceptionResponse, wrapper= views), static views, '
+        'subscribers, tweens, accept orders (incl. re-declared default members), optionally under a root route_prefix given '
+        'with or without slashes; each executed through real Configurators '
         'in 5 (thorough 8) variants = permutations keeping only route/route, subscriber/subscriber, tween/tween order, '
-        'distributed over random include trees; every variant probed with the same requests. Non-trivial = the program '
+        'distributed over random include trees (some callables included twice, some variants with one intermediate commit '
+        'after a closed prefix); every variant probed with the same requests. Non-trivial = the program '
         'has >= 2 phases, >= 1 forward reference (a reader declared before its writer in some variant) and the variants '
         'really differ in order and nesting; distinct by full case')
 ASSUMPTIONS = ['action callables have no effects outside the registry keys of the declared read/write table '
@@ -31,24 +34,36 @@ TRUSTED = ['translator harness/c08/translate.py: its PRIMITIVE TABLE (how an act
            'store model coq/Model/C08.v (statement = phase, reads, writes, mode); declared read/write table '
            'harness/c08/tables.py (checked by Coq against the regenerated phases and by the registry monitor at run time)',
            'C04 model of execute_actions/resolveConflicts (coq/Model/C04.v) for the executed order (C08_commit_runs_schedule)',
+           'shape pins (hand-followed, not translated): the statement-level residue of every translated directive '
+           '(pins_residue.json), their nested callables (pins_closures.json), and outside the anchor files '
+           'util.TopologicalSorter, config/tweens.Tweens, registry.Deferred/undefer/Introspectable, RoutesMapper.connect, Router.__init__',
            'zope.interface registry, WebOb']
 TECHNIQUE = ('Coq proof of the scheduling theorem over a store model with phase discipline; the directive emission functions (39 '
              'directive methods) and the registration path (Configurator.action, ActionState.action, commit) are REGENERATED from '
              'the Python source by a fail-closed ast->Gallina translator on every run and proved equal to the hand-written '
-             'reference model; regenerated phase table checked by vm_compute; monitored registry; metamorphic differential run')
+             'reference model (a directive may call only the action call, translated directives and a fixed list of helper '
+             'methods of the configurator, and may not store to it: fail-closed); regenerated phase table checked by vm_compute; '
+             'monitored registry; metamorphic differential run')
 LEVEL_TEXT = ('Machine-checked: for programs of any size, a permutation that keeps the order inside each ordered container, under '
               'write discipline H1 and phase discipline H2, yields pointwise equal final stores, also over the real C04 commit model '
               'and any include trees (commit_model_permutation_invariant); forward references are fine (forward_reference_ok); the '
               'regenerated emission functions equal the reference model (generated_directives_are_model), agree with the regenerated '
               'site/phase table (generated_calls_are_the_table), and every program made of calls of the regenerated directives satisfies '
-              'H2 (generated_programs_H2); the regenerated registration path equals its reference (generated_registration_path_is_model).')
+              'H2 (generated_programs_H2); the regenerated registration path equals its reference (generated_registration_path_is_model); '
+              'the scheduling theorem also holds for arbitrary execution orders (trace_permutation_invariant) and for programs with an '
+              'intermediate commit after a closed prefix, at store level and over the C04 commit model applied per segment '
+              '(closed_prefix_commit_equiv, table_programs_segmented, commit_segs_runs_schedules, commit_model_segmented_invariant); '
+              'closedness is necessary (open_cut_differs).')
 LEVEL_NOTE = ('PARTIAL by design: equality of whole applications is validated (metamorphic run), not proved. H2 rests on the declared '
               'read table (what the action CALLABLES read/write: monitored at run time, not translated; their text is pinned, names '
               'blanked, in closure_pins.json). Members of TopologicalSorter containers placed by explicit constraints are modelled as '
               'commuting (sorted-insertion) writes; unconstrained ones as appends. Translated mechanically: which '
               'actions each directive declares, and the queuing/autocommit path of Configurator.action. Not translated (shape-pinned): '
               'execute_actions/resolveConflicts (C04 model), Configurator.include, setup_registry, MultiView.add, PredicateList.add/make, '
-              'view derivers. Intermediate commits are validated only.')
+              'view derivers, TopologicalSorter, Tweens. Intermediate commits: proved for ONE cut after a closed prefix (the model '
+              're-checks closedness per variant); more cuts are not generated. add_notfound_view(append_slash=True) derives its '
+              'wrapped view at the statement from what is committed so far: order independent inside one commit only (such programs '
+              'get no intermediate commit).')
 
 _state = {'sites': None, 'preds': None}
 
@@ -440,9 +455,11 @@ def _structure_ok(case, body, shadow):
                 return False
         return True
     seen = []
+    if sum(1 for it in body if it == 'commit') > 1:
+        return False          # the theorems (and the model's closedness flag) cover ONE intermediate commit
     for it in body:
         if it == 'commit':
-            if shadow or not closed_prefix(case, seen, shadow):
+            if shadow or not closed_prefix(case, seen, shadow) or any(s.get('aslash') for s in case['stmts']):
                 return False
         elif isinstance(it, dict):
             if not inner([it], False):
@@ -457,8 +474,8 @@ def _structure_ok(case, body, shadow):
 
 def add_commits(rng, case):
     """turn some variants into programs with an intermediate commit() after a closed prefix"""
-    if any('shadow_of' in s for s in case['stmts']):
-        return case
+    if any('shadow_of' in s or s.get('aslash') for s in case['stmts']):
+        return case       # (append_slash derives its wrapped view from what is COMMITTED at the statement: see NOTES.md)
     deps = _deps(case)
     ids = [s['id'] for s in case['stmts']]
     cls = G.seq_class(case['stmts'])
@@ -546,7 +563,7 @@ def shrinks(case):
     # drop optional attributes of statements
     for n, st in enumerate(S):
         for a in ('perm', 'renderer', 'csrf', 'dopt', 'dopt2', 'factory', 'method', 'param', 'vp', 'vq', 'ctx', 'rp', 'ret',
-                  'xhr', 'header', 'accept'):
+                  'xhr', 'header', 'accept', 'wrapper', 'aslash', 'nones'):
             if a in st and not (a == 'ret' and st.get('renderer')):
                 st2 = {k: v for k, v in st.items() if k != a}
                 if a == 'renderer':
@@ -568,6 +585,8 @@ def _monitor_report(case, b, acts):
         if ctx[0] == 'decl':
             sites = [a['site'] for a in acts[ctx[1]]]
             allowed = set(f for s in sites for f in T.DECLARED[s]['decl'])
+            if stmts[ctx[1]].get('aslash'):
+                allowed |= set(T.EAGER_DERIVE)       # add_notfound_view(append_slash=True) derives the wrapped view right away
             if fam not in allowed:
                 bad.add('declaration of %s touches %s (%s)' % (stmts[ctx[1]]['k'], rk, op))
             continue
@@ -618,7 +637,7 @@ def run_impl(case):
     mon = []
     decl_ok = True
     for body in case['variants']:
-        b = W.build_variant(stmts, body)
+        b = W.build_variant(stmts, body, case.get('rootprefix'))
         # the actions every statement created: count, order= value and deferred flag as the expansion says
         exp = []
         for sid in G.flatten(body):
@@ -659,11 +678,13 @@ def equiv(case, obs, model):
                 return False
             if vi['exec'] != vm['exec'] or vi['regs'] != vm['regs']:
                 return False
-            h0, sched, h1, h2, hord, seq = vm['flags']
+            h0, sched, h1, h2, hord, seq, closed = vm['flags']
             if h0 and not sched:
                 return False                  # C04 commit must execute the sort-by-phase schedule
-            if h0 and h1 and h2 and hord and not seq:
-                return False                  # would contradict commit_permutation_invariant
+            if not closed:
+                return False                  # an intermediate commit after a prefix the MODEL does not find closed
+            if h0 and h1 and h2 and hord and closed and not seq:
+                return False                  # would contradict commit_permutation_invariant / segmented_variants_agree
         return len(obs['variants']) == len(model['variants'])
     except Exception:
         return False
@@ -743,6 +764,14 @@ def classify(case, obs, spec):
     if regdiff and all(k.startswith('view:') for k in regdiff):
         from .world import slotkey
         customs = _customs(case)
+        # unconstrained custom predicates weigh by their position in the list as registered; when every variant registered
+        # them in the same order (preds:view is not among the differences) that order -- not the alphabetical reference --
+        # is the one the views' orders were computed with
+        byid = {s['id']: s for s in stmts}
+        pv = r0['regs'].get('preds:view')
+        if pv and 'preds:view' not in regdiff and all(i in byid and byid[i]['k'] == 'vpred' for i in pv) \
+                and not any(i in _ranks(case) for i in pv):
+            customs = [byid[i]['name'] for i in pv]
         kinds_differ = False
         for k in regdiff:
             members = [s for s in views.values() if 'view:' + slotkey(s) == k]
@@ -827,6 +856,20 @@ def kinds(case, obs):
         ks.append('ill-formed-program')
     if any(s.get('ret') == 'mv' for s in case['stmts']):
         ks.append('has-view-for-custom-mapper')
+    if any(s.get('nones') for s in case['stmts']):
+        ks.append('explicit-None-arguments')
+    if 'twice' in str(case['variants']):
+        ks.append('callable-included-twice')
+    if case.get('rootprefix'):
+        ks.append('root-route-prefix' + ('-trailing-slash' if case['rootprefix'].endswith('/') else ''))
+    if any(s.get('aslash') for s in case['stmts']):
+        ks.append('has-append-slash-notfound')
+    if any(s.get('wrapper') for s in case['stmts']):
+        ks.append('has-wrapper-view-option')
+    if any(s.get('ctx') == 'E' for s in case['stmts']):
+        ks.append('has-view-on-IExceptionResponse')
+    if any(s['k'] == 'acceptorder' and s['value'] in ('application/json', 'text/plain') for s in case['stmts']):
+        ks.append('redeclares-default-sorter-member')
     st = set()
     for q in obs['probes']:
         if isinstance(q, list):
@@ -846,7 +889,7 @@ def kinds(case, obs):
 
 def describe(case):
     return {'stream': case.get('stream'), 'stmts': case['stmts'], 'variants': case['variants'],
-            'n_probes': len(case['probes'])}
+            'rootprefix': case.get('rootprefix'), 'n_probes': len(case['probes'])}
 
 
 def generate(rng, tier, n):
@@ -871,11 +914,40 @@ def targeted(broken, disagreements, rng):
         [dict(k='route', name='r0', pattern='/q', rp='1'), dict(k='rpred', name='rp'), dict(k='view', name='', route='r0')],
         [dict(k='static', name='st1'), dict(k='defperm', perm='p1'), dict(k='policy')],
         [dict(k='view', name='x', ret='mv'), dict(k='mapper'), dict(k='view', name='y', ret='mv')],
+        # the slot of the default exception-response view (committed before the program): predicated member and
+        # predicate-less replacement in either order
+        [dict(k='view', name='', ctx='E', method='POST'), dict(k='view', name='', ctx='E'), dict(k='view', name='x')],
+        # a statement that derives a view while it is declared, between a reader and what the reader depends on
+        [dict(k='view', name='', route='r0'), dict(k='view', kind='notfound', aslash=True),
+         dict(k='route', name='r0', pattern='/q')],
+        [dict(k='view', name='x'), dict(k='view', kind='notfound', aslash=True), dict(k='defperm', perm='p1'), dict(k='policy')],
+        # wrapper= names a view declared later
+        [dict(k='view', name='x', wrapper='wr'), dict(k='view', name='wr', ret='wrap')],
+        # re-declaration of a default member of a sorter container next to a member constrained relative to it
+        [dict(k='acceptorder', value=G.V1, more='application/json'),
+         dict(k='acceptorder', value='application/json', more='text/plain'),
+         dict(k='view', name='api', accept=G.V1), dict(k='view', name='api', accept='application/json'),
+         dict(k='view', name='api', accept='text/plain')],
+        # a root configurator whose route_prefix is handed on unnormalised: top level vs inside an include
+        ([dict(k='route', name='r0', pattern='/q'), dict(k='view', name='', route='r0'), dict(k='view', name='x')],
+         {'rootprefix': 'api/'}),
+        ([dict(k='static', name='st1'), dict(k='view', name='x')], {'rootprefix': 'api/'}),
+        ([dict(k='route', name='r0', pattern='/q', prefix=1), dict(k='view', name='', route='r0')], {'rootprefix': '/api/'}),
+        # a route declared before the root factory its requests are answered with
+        [dict(k='route', name='r0', pattern='/q'), dict(k='rootf', ctx='A'), dict(k='view', name='', route='r0', ctx='A')],
     ]
     for prog in base:
+        extra = {}
+        if isinstance(prog, tuple):
+            prog, extra = prog
         S = [dict(s, id=i) for i, s in enumerate(prog)]
         ids = [s['id'] for s in S]
         rev = list(reversed(ids))
-        variants = [ids, rev, [{'inc': ids[:1]}] + ids[1:], [{'inc': [{'inc': rev[:1]}]}] + rev[1:]]
-        out.append({'stream': 'targeted', 'stmts': S, 'variants': variants, 'probes': G.probes_for(rng, S)})
+        variants = [ids, rev, [{'inc': ids[:1]}] + ids[1:], [{'inc': [{'inc': rev[:1]}]}] + rev[1:],
+                    [{'inc': [i]} for i in ids]]
+        case = {'stream': 'targeted', 'stmts': S, 'variants': variants,
+                'probes': G.probes_for(rng, S, extra.get('rootprefix'))}
+        case.update(extra)
+        if valid(case):
+            out.append(case)
     return out
